@@ -1,6 +1,7 @@
 from checks import apifam
 GUARDS = {"ReallocKeepsPrefix", "FailedReallocKeepsOld", "MovedDisjointFromOld", "ExpandSucceedsUpToUsable", "ExpandNeverMoves",
           "ExpandWithinUsable", "UsableAtLeastRequested", "NoOverlap", "ReallocOfLiveBlock", "FreeOfLiveBlock", "ContentsKept.gen", "ContentsKept.bytes",
-          "WalkCount", "WalkOnlyLive", "WalkEveryLiveOnce", "OutParamUnchanged"}
+          "WalkCount", "WalkOnlyLive", "WalkEveryLiveOnce", "OutParamUnchanged",
+          "MalformedFailsCleanly@re"}       # a re-allocation whose new size (count * size) cannot be represented must fail: a block "of at least the new size" does not exist
 def run(tier, seed):
     return apifam.run_api("C05", tier, seed, profiles=["c05"], builds=["rel", "dbg", "sec"], own_guards=GUARDS, crash_decisive=True, gen=(16, 150))
